@@ -385,6 +385,7 @@ func replayOnRealCode(o *Obligation, goos, dir, base string) map[string]interfac
 			rec["why"] = "the real function's output for this input violates the clause"
 		} else {
 			rec["why"] = "the clause mentions library functions kept uninterpreted (e.g. fmt.Sprintf), so the observed output cannot be judged by the solver alone"
+			rec["rests_on_uninterpreted"] = true
 		}
 	} else if so.status == "unsat" {
 		rec["why"] = "the real function's output for the model's input satisfies the clause (the model does not transfer)"
